@@ -9,12 +9,14 @@ import (
 	"github.com/conduitio/conduit-commons/opencdc"
 	"github.com/conduitio/conduit/pkg/connector"
 	"github.com/conduitio/conduit/pkg/pipeline"
+	"github.com/conduitio/conduit/pkg/provisioning/config"
 )
 
 func init() {
 	verifRegister("VerifC15Import", VerifC15Import)
 	verifRegister("VerifC16Apply", VerifC16Apply)
 	verifRegister("VerifC16Locks", VerifC16Locks)
+	verifRegister("VerifC16Concurrent", VerifC16Concurrent)
 }
 
 // VerifC15Import: import an old configuration, then a new one (with one store
@@ -136,6 +138,12 @@ func VerifC16Apply() {
 	if !running {
 		verifAssert(len(calls) == 0, "c16-stopped-pipeline-lifecycle-touched")
 	}
+	// independent of the plan's own classification: a change of the DLQ (plugin,
+	// settings or nack window) or of a connector is never applied to a running
+	// pipeline without draining it first
+	if running && aerr == nil && (pRenderDLQ(old) != pRenderDLQ(newCfg) || pRenderConns(old) != pRenderConns(newCfg)) {
+		verifAssert(sawStop && stopOK, "c16-restart-requiring-change-applied-without-drain")
+	}
 	if sawStop && !stopOK {
 		verifAssert(!mutated, "c16-imported-although-stop-failed")
 		verifAssert(!sawStart, "c16-start-after-failed-stop")
@@ -161,6 +169,76 @@ func VerifC16Apply() {
 				verifAssert(p != configPathWorkers, "c16-worker-change-marked-live-swappable")
 			}
 		}
+	}
+}
+
+// VerifC16Concurrent: two appliers hold a plan computed from the same state of
+// one pipeline and apply concurrently (the drain of a running pipeline yields).
+// Only one of the plans can still match the state it was computed from: the
+// other apply is refused as stale and touches nothing.
+func VerifC16Concurrent() {
+	ctx := context.Background()
+	w := newPWorld()
+	old := pFixed(0)
+	if err := w.svc.Import(ctx, old); err != nil {
+		verifFail("c16-first-import-failed")
+	}
+	running := verifBool("running")
+	if running {
+		_ = w.pipes.UpdateStatus(ctx, "pl", pipeline.StatusRunning, "")
+	}
+	cfgs := []config.Pipeline{pFixed(1), pFixed(1 + verifConcrete(verifChoice("second", 2)))}
+	var hashes [2]string
+	for k := range cfgs {
+		plan, err := w.svc.Plan(ctx, cfgs[k])
+		if err != nil {
+			verifFail("c16-plan-failed")
+		}
+		verifAssume(!plan.Empty())
+		hashes[k] = plan.Hash
+	}
+	w.lc.yield = true
+	var errs [2]error
+	var wg sync.WaitGroup
+	for k := range cfgs {
+		wg.Add(1)
+		go func(k int) {
+			defer wg.Done()
+			if running {
+				_, errs[k] = w.svc.ApplyPlanLive(ctx, cfgs[k], hashes[k], true)
+			} else {
+				_, errs[k] = w.svc.ApplyPlan(ctx, cfgs[k], hashes[k])
+			}
+		}(k)
+	}
+	wg.Wait()
+	verifSchedOff()
+	ok := 0
+	for k := range errs {
+		if errs[k] == nil {
+			ok++
+		}
+	}
+	// the plans were computed from the same state and both change it: after one
+	// is applied the other no longer matches
+	verifAssert(ok <= 1, "c16-stale-plan-applied")
+	stops, starts := 0, 0
+	for _, c := range w.lc.calls {
+		if c == "stopandwait" {
+			stops++
+		}
+		if c == "start" {
+			starts++
+		}
+	}
+	verifAssert(stops <= 1 && starts <= 1, "c16-stale-plan-touched-the-pipeline")
+	if ok == 1 {
+		for k := range errs {
+			if errs[k] == nil {
+				verifAssert(w.exported() == pRender(cfgs[k]), "c16-apply-did-not-converge")
+			}
+		}
+		verifCover("one-applied")
 	}
 }
 
